@@ -590,6 +590,17 @@ func drawSnippet(t *rapid.T, name string, e genEnv) []Op {
 			b2 := rapid.IntRange(0, e.nBrows-1).Draw(t, "b2")
 			ops = append(ops, Op{K: "setcookie", B: b2, Src: "cookie", SA: a, SN: rapid.IntRange(0, 2).Draw(t, "oldn")}, Op{K: "newsess", B: b2}, Op{K: "visit", B: b2, S: "/p/none"})
 		}
+	case "idlelogout":
+		// remembered, away for a long time, and the first thing the returning browser does is log out
+		if !c.Has("auth") || !c.Has("logout") {
+			return nil
+		}
+		login.F = c.Has("remember")
+		ops = append(ops, Op{K: "newsess", B: b}, login)
+		if chance(t, "browse", 50) {
+			ops = append(ops, Op{K: "visit", B: b, S: pick(t, "route", "/p/none", "/open")}, Op{K: "set", B: b, S: pick(t, "appkey", harness.AppKeys...), S2: "dark"})
+		}
+		ops = append(ops, Op{K: "advance", N: pick(t, "away", c.ExpireS+5, c.ExpireS+90, 100000)}, Op{K: "logout", B: b})
 	case "neighbourpw":
 		// somebody types an account's identifier with the password of the account next to it (twins, shared households)
 		if !c.Has("auth") || e.nAcct < 2 {
